@@ -65,6 +65,18 @@ def main():
     # ---- 2. tie (+ corpus first), 3. known findings
     try:
         tie = mod.run(args.tier)
+    except common.CaseFileError as e:
+        tie = dict(coverage=dict(programs=0, evaluations=0, tie_aborted=True),
+                   failures=[dict(kind='history', no_input=True,
+                                  theorem_or_case=f'correspondence harness/props/{prop.lower()}.py: a generated case file is ill-typed',
+                                  summary='an observation of the implementation lies outside the universe of the model (the generated Gallina case file does not type-check); the property is no longer shown to hold',
+                                  detail=str(e)[-2500:], config={})],
+                   assumptions=[])
+    except common.ImplMisbehaviour as e:
+        tie = dict(coverage=dict(programs=0, evaluations=0, tie_aborted=True),
+                   failures=[dict(kind='history', theorem_or_case=f'correspondence harness/props/{prop.lower()}.py',
+                                  summary=f'the implementation cannot be observed on a generated input: {e}'[:1500], config={})],
+                   assumptions=[])
     except common.HarnessError:
         raise
     except Exception as e:       # noqa: the implementation behaved in a way the tie's driver cannot even process
